@@ -25,6 +25,7 @@ def dtOf (name : String) : Option (FillMeta.DT × Nat) :=
   | "int8" => some (.int 1, 1) | "int16" => some (.int 2, 2) | "int32" => some (.int 4, 4) | "int64" => some (.int 8, 8)
   | "uint8" => some (.uint 1, 1) | "uint16" => some (.uint 2, 2) | "uint32" => some (.uint 4, 4) | "uint64" => some (.uint 8, 8)
   | "float32" => some (.float Float.f32, 4) | "float64" => some (.float Float.f64, 8)
+  | "complex64" => some (.complex Float.f32, 8)
   | _ => none
 
 def realCodec : FillMeta.NumCodec := ⟨fun _ => [], Float.readF64⟩
@@ -69,7 +70,17 @@ def chainOf (ms : List MetaV3) : Option Chain := do
     pure ⟨← ts.mapM orderOf, a2b, ← b2bOf tail⟩
   | [] => none
 
-def v3Of (text : Bytes) (path : String) : Option V3 := do
+/-- a complex64 array is, byte for byte, a float32 array with one more (innermost) dimension of extent 2: every
+    codec of the modelled set treats the two components as consecutive float32 elements -/
+def expandChain (rank : Nat) (c : Chain) : Chain :=
+  let ex (o : List Nat) := o ++ [rank]
+  { transposes := c.transposes.map ex,
+    a2b := match c.a2b with
+      | .bytes big => .bytes big
+      | .shard ishape inner ib ic ae => .shard (ishape ++ [2]) { inner with transposes := inner.transposes.map ex } ib ic ae,
+    b2b := c.b2b }
+
+def v3Of (text : Bytes) (path : String) : Option (V3 × Bool) := do
   let d ← ArrayDoc.ofText text
   let shape ← d.shape.mapM asU64
   let chunk ← (cfgGet d.chunkGrid "chunk_shape").bind natList
@@ -79,7 +90,11 @@ def v3Of (text : Bytes) (path : String) : Option V3 := do
   let sepDefault := if d.cke.name == ascii "v2" then '.' else '/'
   let sep := match (cfgGet d.cke "separator").bind strOfJ with | some "." => '.' | some "/" => '/' | _ => sepDefault
   let chain ← chainOf d.codecs
-  pure ⟨shape, chunk, es, fill, enc, sep, chain, path.toList⟩
+  if d.dataType.name == ascii "complex64" then
+    if fill.take 4 != fill.drop 4 then none else
+    -- the chunk key does not see the extra dimension: keys are computed from the first `rank` coordinates
+    pure (⟨shape ++ [2], chunk ++ [2], 4, fill.take 4, enc, sep, expandChain shape.length chain, path.toList⟩, true)
+  else pure (⟨shape, chunk, es, fill, enc, sep, chain, path.toList⟩, false)
 
 def v2Of (text : Bytes) (path : String) : Option V2 := do
   let j ← parse text
@@ -126,9 +141,21 @@ structure St where
   /-- raw values put into the store (direction r) -/
   store : Store := []
   path : String := "/"
+  /-- complex64 seen as float32 with a trailing dimension of 2 -/
+  cplx : Bool := false
 
 def showElems (xs : List Elem) : String := if xs.isEmpty then "~" else ".".intercalate (xs.map showHex)
 def parseElems (s : String) : Option (List Elem) := if s == "~" then some [] else (s.splitOn ".").mapM parseHex
+
+def expandElems (cplx : Bool) (xs : List Elem) : List Elem := if cplx then xs.flatMap (fun e => [e.take 4, e.drop 4]) else xs
+def mergeElems (cplx : Bool) : List Elem → List Elem
+  | a :: b :: rest => if cplx then (a ++ b) :: mergeElems cplx rest else a :: mergeElems cplx (b :: rest)
+  | xs => xs
+/-- the store as the expanded model addresses it: one more chunk coordinate, always 0 -/
+def expandKeys (cplx : Bool) (sep : Char) (s : Store) (metaKeys : List (List Char)) : Store :=
+  if cplx then s.map (fun (k, v) => if metaKeys.contains k then (k, v) else (k ++ [sep, '0'], v)) else s
+def contractKeys (cplx : Bool) (s : Store) : Store :=
+  if cplx then s.map (fun (k, v) => (k.take (k.length - 2), v)) else s
 
 def parseSubset (s : String) : Option (Idx × Shape) :=
   match s.splitOn "+" with
@@ -145,6 +172,16 @@ def writeRegion (shape : Shape) (xs : List Elem) (start sh : List Nat) (data : L
 def metaKeyOf (path : String) (name : String) : String :=
   if path == "/" then name else (path.drop 1).toString ++ "/" ++ name
 
+def sepOf : Arr → Char | .v3 a => a.sep | .v2 a => a.sep
+def St.metaKeys (st : St) : List (List Char) := [(metaKeyOf st.path "zarr.json").toList, (metaKeyOf st.path ".zarray").toList]
+/-- elements, regions and chunk indices of the line protocol in the coordinates of the (possibly expanded) model -/
+def St.elems (st : St) (s : String) : Option (List Elem) := (parseElems s).map (expandElems st.cplx)
+def St.show (st : St) (xs : List Elem) : String := showElems (mergeElems st.cplx xs)
+def St.subset (st : St) (s : String) : Option (Idx × Shape) :=
+  (parseSubset s).map (fun (a, b) => if st.cplx then (a ++ [0], b ++ [2]) else (a, b))
+def St.cidx (st : St) (c : List Nat) : List Nat := if st.cplx then c ++ [0] else c
+def St.readStore (st : St) (arr : Arr) (s : Store) : Option (List Elem) := arr.read (expandKeys st.cplx (sepOf arr) s st.metaKeys)
+
 def handle (st : St) (l : Line) : Option (St × List String) := do
   let verb ← l.verbs[1]?
   match verb with
@@ -157,8 +194,8 @@ def handle (st : St) (l : Line) : Option (St × List String) := do
     match l.get "meta" with
     | some mh =>
       let text ← parseHex mh
-      let arr ← (if (l.get "ver") == some "2" then (v2Of text path).map Arr.v2 else (v3Of text path).map Arr.v3)
-      pure ({ arr := some arr, content := List.replicate (prod arr.shape) arr.fill, store := [], path }, ["ok"])
+      let (arr, cplx) ← (if (l.get "ver") == some "2" then (v2Of text path).map (fun a => (Arr.v2 a, false)) else (v3Of text path).map (fun (a, c) => (Arr.v3 a, c)))
+      pure ({ arr := some arr, content := List.replicate (prod arr.shape) arr.fill, store := [], path, cplx }, ["ok"])
     | none => pure ({ arr := none, content := [], store := [], path }, ["ok"])
   | "op" =>
     let op ← l.verbs[2]?
@@ -167,19 +204,20 @@ def handle (st : St) (l : Line) : Option (St × List String) := do
       let k := (← l.get "k")
       let v ← parseHex (← l.get "v")
       -- the metadata document configures the reader
-      let st := if k == metaKeyOf st.path "zarr.json" then { st with arr := (v3Of v st.path).map Arr.v3 }
-        else if k == metaKeyOf st.path ".zarray" then { st with arr := (v2Of v st.path).map Arr.v2 } else st
+      let st := if k == metaKeyOf st.path "zarr.json" then
+          (match v3Of v st.path with | some (a, c) => { st with arr := some (Arr.v3 a), cplx := c } | none => { st with arr := none })
+        else if k == metaKeyOf st.path ".zarray" then { st with arr := (v2Of v st.path).map Arr.v2, cplx := false } else st
       pure ({ st with store := st.store.filter (·.1 != k.toList) ++ [(k.toList, v)] }, ["ok"])
     | "open" => pure (st, [if st.arr.isSome then "ok" else "any"])
     | "store_array_subset" =>
       let arr ← st.arr
-      let (start, sh) ← parseSubset (← l.get "r")
-      let data ← parseElems (← l.get "data")
+      let (start, sh) ← st.subset (← l.get "r")
+      let data ← st.elems (← l.get "data")
       pure ({ st with content := writeRegion arr.shape st.content start sh data }, ["ok"])
     | "store_chunk" =>
       let arr ← st.arr
-      let c ← l.nl "c"
-      let data ← parseElems (← l.get "data")
+      let c := st.cidx (← l.nl "c")
+      let data ← st.elems (← l.get "data")
       let start := List.zipWith (· * ·) c arr.chunk
       -- only the part of the chunk inside the array is array content
       let idxs := (boxIndices arr.chunk).map (fun w => addIdx w start)
@@ -187,7 +225,7 @@ def handle (st : St) (l : Line) : Option (St × List String) := do
       pure ({ st with content }, ["ok"])
     | "erase_chunk" =>
       let arr ← st.arr
-      let c ← l.nl "c"
+      let c := st.cidx (← l.nl "c")
       let start := List.zipWith (· * ·) c arr.chunk
       let idxs := (boxIndices arr.chunk).map (fun w => addIdx w start)
       let content := idxs.foldl (fun acc i => if inB i arr.shape then acc.set (ravel i arr.shape) arr.fill else acc) st.content
@@ -199,20 +237,20 @@ def handle (st : St) (l : Line) : Option (St × List String) := do
       let kvs ← (if body == "~" then some [] else (body.splitOn ";").mapM (fun kv => match kv.splitOn "=" with
         | [k, v] => (parseHex v).map (fun b => (k.toList, b))
         | _ => none))
-      match arr.read kvs with
-      | some xs => pure (st, [if xs == st.content then l.outcome else "kv <values that decode to what was written> (the specification reader gets " ++ showElems xs ++ " instead of " ++ showElems st.content ++ ")"])
+      match st.readStore arr kvs with
+      | some xs => pure (st, [if xs == st.content then l.outcome else "kv <values that decode to what was written> (the specification reader gets " ++ st.show xs ++ " instead of " ++ st.show st.content ++ ")"])
       | none => pure (st, ["kv <values the specification reader can decode>"])
     | "retrieve_array_subset" =>
       let arr ← st.arr
-      let (start, sh) ← parseSubset (← l.get "r")
-      let content ← (if (l.get "dir") == some "r" || !st.store.isEmpty then arr.read st.store else some st.content)
-      pure (st, ["val " ++ showElems (regionOf arr.shape content start sh arr.fill)])
+      let (start, sh) ← st.subset (← l.get "r")
+      let content ← (if (l.get "dir") == some "r" || !st.store.isEmpty then st.readStore arr st.store else some st.content)
+      pure (st, ["val " ++ st.show (regionOf arr.shape content start sh arr.fill)])
     | "retrieve_chunk" =>
       let arr ← st.arr
-      let c ← l.nl "c"
-      let content ← (if !st.store.isEmpty then arr.read st.store else some st.content)
+      let c := st.cidx (← l.nl "c")
+      let content ← (if !st.store.isEmpty then st.readStore arr st.store else some st.content)
       let start := List.zipWith (· * ·) c arr.chunk
-      pure (st, ["val " ++ showElems ((boxIndices arr.chunk).map (fun w =>
+      pure (st, ["val " ++ st.show ((boxIndices arr.chunk).map (fun w =>
         let i := addIdx w start
         if inB i arr.shape then content.getD (ravel i arr.shape) arr.fill else arr.fill))])
     | _ => none
@@ -250,7 +288,9 @@ def dtypes : List DTG := [
   ⟨"uint8", "u1", 1, [("0", [0]), ("7", [7])]⟩,
   ⟨"int16", "i2", 2, [("0", [0, 0]), ("-2", [0xfe, 0xff])]⟩,
   ⟨"float32", "f4", 4, [("0.0", [0, 0, 0, 0]), ("\"NaN\"", [0, 0, 0xc0, 0x7f]), ("1.5", [0, 0, 0xc0, 0x3f])]⟩,
-  ⟨"uint64", "u8", 8, [("0", [0, 0, 0, 0, 0, 0, 0, 0]), ("72623859790382856", [8, 7, 6, 5, 4, 3, 2, 1])]⟩]
+  ⟨"uint64", "u8", 8, [("0", [0, 0, 0, 0, 0, 0, 0, 0]), ("72623859790382856", [8, 7, 6, 5, 4, 3, 2, 1])]⟩,
+  -- complex64: modelled as float32 with a trailing dimension of 2 (fill: both components equal)
+  ⟨"complex64", "c8", 4, [("[0.0,0.0]", [0, 0, 0, 0]), ("[1.5,1.5]", [0, 0, 0xc0, 0x3f]), ("[\"NaN\",\"NaN\"]", [0, 0, 0xc0, 0x7f])]⟩]
 
 def b2bJson (cs : List B2BK) : List String := cs.map (fun c => match c with
   | .gzip => "{\"name\":\"gzip\",\"configuration\":{\"level\":5}}"
@@ -304,8 +344,9 @@ def readLines (shape chunk : Shape) : G (List String) := do
   pure out
 
 def genV3 : G (List String) := do
-  let rank ← pick [0, 1, 1, 2, 2, 3]
   let dt ← pick dtypes
+  let cplx := dt.name == "complex64"
+  let rank ← (if cplx then pick [1, 1, 2, 2, 3] else pick [0, 1, 1, 2, 2, 3])
   let (fillJ, fill) ← pick dt.fills
   let chunk ← (List.range rank).mapM (fun _ => pick [1, 2, 3, 4, 6])
   let shape ← chunk.mapM (fun c => do let k ← rnd 3; let r ← rnd c; pure (c * k + r + (if k == 0 && r == 0 then 1 else 0)))
@@ -325,7 +366,8 @@ def genV3 : G (List String) := do
   let (encName, enc) ← pick [("default", Keys.Enc.default), ("v2", Keys.Enc.v2)]
   let sep ← pick ['/', '.']
   let path ← pick ["/", "/a", "/g/arr"]
-  let a : V3 := ⟨shape, chunk, dt.es, fill, enc, sep, chain, path.toList⟩
+  let a : V3 := if cplx then ⟨shape ++ [2], chunk ++ [2], 4, fill, enc, sep, expandChain rank chain, path.toList⟩
+    else ⟨shape, chunk, dt.es, fill, enc, sep, chain, path.toList⟩
   let codecsJ := ts.map transposeJson ++ [match a2b with
       | .bytes big => bytesJson big
       | .shard ishape inner idxBig idxCrc atEnd =>
@@ -337,18 +379,18 @@ def genV3 : G (List String) := do
     "\",\"chunk_grid\":{\"name\":\"regular\",\"configuration\":{\"chunk_shape\":" ++ jNats chunk ++ "}},\"chunk_key_encoding\":{\"name\":\"" ++
     encName ++ "\",\"configuration\":{\"separator\":\"" ++ String.singleton sep ++ "\"}},\"fill_value\":" ++ fillJ ++ ",\"codecs\":[" ++
     ",".intercalate codecsJ ++ "]}"
-  let data ← genData dt.es (prod shape) fill
-  let data ← blankChunks shape chunk fill data
+  let data ← genData dt.es (prod a.shape) fill
+  let data ← blankChunks a.shape a.chunk fill data
   let layout ← genLayout
-  let store := a.write layout data
+  let store := contractKeys cplx (a.write layout data)
   let puts := store.map (fun (k, v) => s!"c12 op put k={String.ofList k} v={showHex v}")
   let reads ← readLines shape chunk
-  pure ([s!"c12 cfg dir=r ver=3 store=memory path={path} es={dt.es}",
+  pure ([s!"c12 cfg dir=r ver=3 store=memory path={path} es={if cplx then 8 else dt.es}",
          s!"c12 op put k={metaKeyOf path "zarr.json"} v={hexOfStr metaText}"] ++ puts ++ ["c12 op open"] ++ reads)
 
 def genV2 : G (List String) := do
   let rank ← pick [0, 1, 1, 2, 2, 3]
-  let dt ← pick dtypes
+  let dt ← pick (dtypes.filter (·.name != "complex64"))
   let (fillJ, fill) ← pick dt.fills
   let chunk ← (List.range rank).mapM (fun _ => pick [1, 2, 3, 4])
   let shape ← chunk.mapM (fun c => do let k ← rnd 3; let r ← rnd c; pure (c * k + r + (if k == 0 && r == 0 then 1 else 0)))
